@@ -248,9 +248,33 @@ class Online:
                     break
             if not runs:
                 break
+            fin_before, _ = ch.scan(d)
             ev = ch.write(runs, api=("blocks" if len(runs) == 1 and rng.random() < 0.15 else None))
             if ev["resp"] != "ok":
                 outcome = "write-refused"
+                if rng.random() < 0.6:
+                    # the writer must remain usable for later periods: try the finalized period once more, then go on
+                    r = None
+                    for a0, n0 in runs:
+                        for j in range(1, cc.nw + 1):
+                            if j in fin_before and cc.bound[j - 1] <= a0 + n0 - 1 and a0 <= cc.bound[j] - 1:
+                                r = max(a0, cc.bound[j - 1])
+                                break
+                        if r is not None:
+                            break
+                    if r is not None:
+                        if rng.random() < 0.7:
+                            ch.write([[r, 1]])
+                        fin_now, _ = ch.scan(d)
+                        jr = max(j for j in range(1, cc.nw + 1) if cc.bound[j - 1] <= r)
+                        free = [j for j in range(jr + 1, cc.nw + 1) if j not in fin_now and cc.bound[j - 1] <= hi]
+                        if free:
+                            jf = free[0]
+                            n1 = max(1, min(3, cc.bound[jf] - cc.bound[jf - 1], hi - cc.bound[jf - 1] + 1))
+                            ev2 = ch.write([[cc.bound[jf - 1], n1]])
+                            if ev2["resp"] == "ok":
+                                pos = cc.bound[jf - 1] + n1
+                                continue
                 break
             pos = runs[-1][0] + runs[-1][1]
             if rng.random() < self.observe_mid:
